@@ -171,6 +171,7 @@ type interp struct {
 	readSealed, readL0x2, readDeep, delFlushed, swapReads int
 	ckptInFlight, ckptSecond, restores, crashPoints       int
 	idleChain                                             int // restored incarnations checkpointed without a write
+	overlapRetains                                        int // retention updates that ran beside a parked checkpoint save
 	flushedKeys                                           map[string]bool
 	gcs, reopens, chainDepth                              int
 	keep                                                  []*dkv.DB
@@ -276,6 +277,7 @@ func Exec(p Program, c *hx.Case, mode Mode) (err error) {
 	c.LabelIf(in.ckptInFlight > 0, "checkpoint-with-task-in-flight")
 	c.LabelIf(in.restores > 0, "restore")
 	c.LabelIf(in.idleChain > 0, "restored-database-checkpointed-while-idle")
+	c.LabelIf(in.overlapRetains > 0, "retention-update-beside-a-parked-checkpoint-save")
 	c.LabelIf(in.gcs > 0, "forced-gc")
 	c.LabelIf(in.walDropsChecked > 0, "wal-removal-after-retention-checked")
 	c.LabelIf(in.lateRetains > 0, "late-retention-update")
@@ -659,12 +661,49 @@ func (in *interp) awaitCheckpoints(step int) error {
 }
 
 func (in *interp) retain(step int, op Op) error {
-	if err := in.awaitCheckpoints(step); err != nil {
-		return err
+	// A retention update may arrive while a newer checkpoint is still being
+	// saved (its checkpoints file is parked at the storage): the update names
+	// only checkpoints that are complete, the one in flight survives it.
+	overlap := false
+	if op.On && (in.mode.Checkpoints || in.mode.CheckFiles) && !in.fs.Holding(ClWAL) && in.fs.Blocked(ClCkpt) == 0 {
+		// make it so: with two complete checkpoints retained and none in flight,
+		// another checkpoint is taken whose checkpoints file parks at the storage
+		done, flying := 0, 0
+		for _, ck := range in.cks {
+			if ck.retained && ck.handle != nil {
+				done++
+			} else if ck.handle == nil {
+				flying++
+			}
+		}
+		if done >= 2 && flying == 0 {
+			in.fs.SetHold(ClCkpt, true)
+			if err := in.checkpoint(step, op); err != nil {
+				return err
+			}
+			deadline := time.Now().Add(waitLong)
+			for in.fs.Blocked(ClCkpt) == 0 && time.Now().Before(deadline) {
+				time.Sleep(50 * time.Microsecond)
+			}
+		}
+	}
+	if in.fs.Holding(ClCkpt) && in.fs.Blocked(ClCkpt) > 0 {
+		done := 0
+		for _, ck := range in.cks {
+			if ck.retained && ck.handle != nil {
+				done++
+			}
+		}
+		overlap = done >= 2
+	}
+	if !overlap {
+		if err := in.awaitCheckpoints(step); err != nil {
+			return err
+		}
 	}
 	var live []*ckpt
 	for _, ck := range in.cks {
-		if ck.retained {
+		if ck.retained && (!overlap || ck.handle != nil) {
 			live = append(live, ck)
 		}
 	}
@@ -720,7 +759,24 @@ func (in *interp) retain(step int, op Op) error {
 			}
 		}
 	}
-	if err := in.db.UpdateRetainedCheckpoints(ids); err != nil {
+	if overlap {
+		// the update runs beside the parked save; then the save is let go and both finish
+		res := make(chan error, 1)
+		go func() { res <- in.db.UpdateRetainedCheckpoints(ids) }()
+		time.Sleep(400 * time.Microsecond)
+		if err := in.awaitCheckpoints(step); err != nil {
+			return err
+		}
+		select {
+		case err := <-res:
+			if err != nil {
+				return hx.Errf("step %d: UpdateRetainedCheckpoints(%v) beside a checkpoint save: %v", step, ids, err)
+			}
+		case <-time.After(waitLong):
+			return &hx.Inconclusive{Why: "retention update beside a checkpoint save did not return"}
+		}
+		in.overlapRetains++
+	} else if err := in.db.UpdateRetainedCheckpoints(ids); err != nil {
 		return hx.Errf("step %d: UpdateRetainedCheckpoints(%v): %v", step, ids, err)
 	}
 	for id, uris := range dropWALs {
